@@ -260,8 +260,8 @@ type PointRes struct {
 // Expect is what the model says about a whole start.
 type Expect struct {
 	Points   []PointRes
-	MustFail bool  // some certainly-created component has a required point without candidate
-	MayFail  bool  // some possibly-created component has one
+	MustFail bool   // some certainly-created component has a required point without candidate
+	MayFail  bool   // some possibly-created component has one
 	Must     []bool // population index -> certainly created
 	May      []bool // population index -> possibly created
 }
